@@ -259,6 +259,19 @@ def gen_C04(tier, seed):
             for v1 in vals[::5]:
                 for v2 in vals[::7]:
                     out.append(f"ediff {p3(parts_of(v1) + (t1,))} {p3(parts_of(v2) + (t2,))}")
+    # sums and differences landing exactly on (or one nanosecond beside) a century multiple
+    rb = random.Random(seed * 29 + 4)
+    for _ in range(budget(tier, 600, 20000)):
+        v = g.rand_epoch_val()
+        k = rb.choice([-32768, -32767, -101, -2, -1, 0, 1, 2, 3, 21, 100, 32766, 32767])
+        tgt = k * NPC + rb.choice([-1, 0, 0, 1])
+        t = rb.choice(list(range(9)))
+        if MINV <= tgt - v <= MAXV:
+            out.append(f"eadd {p3(parts_of(v) + (t,))} {p2(parts_of(tgt - v))}")
+        if MINV <= v - tgt <= MAXV:
+            out.append(f"esub {p3(parts_of(v) + (t,))} {p2(parts_of(v - tgt))}")
+            if MINV <= tgt <= MAXV:
+                out.append(f"ediff {p3(parts_of(v) + (t,))} {p3(parts_of(v - tgt) + (t,))}")
     n = budget(tier, 30000, 1500000)
     for _ in range(n):
         e = g.rand_epoch(list(range(9)))
@@ -336,6 +349,13 @@ def gen_C06(tier, seed):
         for t1, t2 in ((4, 0), (0, 4)):
             out.append(f"conv {c} {n} {t1} {t2}")
         out.append(f"leap {c} {n} 4")
+    # results landing exactly on (or beside) a century multiple after the leap-second offset is applied or removed
+    for k in (-32768, -100, -1, 0, 1, 2, 3, 100, 32766):
+        for off in (0, 10, 32, 36, 37):
+            for d in (-1, 0, 1):
+                for v, t1, t2 in ((k * NPC + off * SEC + d, 0, 4), (k * NPC - off * SEC + d, 4, 0)):
+                    if MINV <= v <= MAXV:
+                        out.append(f"conv {p2(parts_of(v))} {t1} {t2}")
     for t in (1, 5, 6, 7, 8):
         for v in g.leap_neighbourhood()[::37]:
             c, n = parts_of(v)
